@@ -97,6 +97,7 @@ def explore(fn, solver=None, assumptions=(), max_paths=20000, stats=None):
         try:
             res = fn(ctx)
         except Infeasible:
+            work.extend(ctx.pending)   # the siblings of the decisions taken before the path was abandoned still have to be explored
             continue
         out.append((list(ctx.pc), res))
         work.extend(ctx.pending)
